@@ -46,7 +46,7 @@ class Check(PropCheck):
         cases = []
         nr = 400 if self.tier == 'quick' else 8000
         for j in range(nr):
-            n = rng.choice([1, 2, 3, 4, 6, 9]) if rng.random() < 0.8 else rng.randint(10, 40)
+            n = rng.choice([1, 2, 3, 4, 6, 9]) if rng.random() < 0.75 else rng.randint(10, 80)
             t = gen.rand_shape(rng, n, p_multi=rng.choice([0, 0.4]), p_unary=rng.choice([0, 0.25]))
             for i, nd in enumerate(t.nodes()):
                 if rng.random() < 0.6:
@@ -61,6 +61,9 @@ class Check(PropCheck):
             else:
                 t.length = None
                 ops = ['new'] + gen.build_ops(t)
+            if rng.random() < 0.3:
+                from props.c10 import edit_prefix
+                ops += edit_prefix(rng, rng.randint(1, 3))
             ops += ['dump']
             for k in range(9):
                 ops += ['to_fmt %d' % k, 'rt_fmt %d' % k]
